@@ -838,6 +838,112 @@ pub fn run(ctx: &Ctx, rep: &mut Report) {
         rep.tally(&format!("rounds_{}", stage));
         history_check(rep, &w, nthreads, nops, seed, true, &mut |_, _, _, _| {});
     }
+    if stage == "threads" {
+        clone_checks(rep, ctx.seed.wrapping_add(ctx.shard as u64), ctx.tier.pick(14, 700, 7000));
+    }
+}
+
+/// Clones: `x.clone()` and `dst.clone_from(&x)` (onto a searcher that was built
+/// from other patterns with another match kind) must answer exactly like `x`,
+/// and `x` itself must be unaffected, for all four searcher types and for the
+/// packed searcher. `clone_from` may be overridden to re-use allocations;
+/// whatever it leaves behind of the old value is hidden state.
+pub fn clone_checks(rep: &mut Report, seed: u64, n: usize) {
+    use crate::walk::answers;
+    let mut root = Rng::new(seed).fork(0xC10E);
+    for i in 0..n {
+        let mut rng = root.fork(i as u64);
+        let (pats, ci) = crate::meta::prefilter_patterns(&mut rng);
+        let (other, _) = crate::meta::prefilter_patterns(&mut rng);
+        let imp = Imp::ALL[i % Imp::ALL.len()];
+        let kind = Kind::ALL[(i / 7) % 3];
+        let okind = Kind::ALL[(i / 7 + 1 + (i % 2)) % 3];
+        let cfg = Cfg::new(imp, kind).ci(ci).sk(crate::cfg::SK::Both);
+        let ocfg = Cfg::new(imp, okind).sk(crate::cfg::SK::Both).pre(i % 3 == 0);
+        let (src, dst) = match (cfg.build(&pats), ocfg.build(&other)) {
+            (Ok(a), Ok(b)) => (a, b),
+            _ => continue,
+        };
+        let cloned = match (&src, dst) {
+            (S::Top(a), S::Top(mut d)) => {
+                d.clone_from(a);
+                (S::Top(a.clone()), S::Top(d))
+            }
+            (S::N(a), S::N(mut d)) => {
+                d.clone_from(a);
+                (S::N(a.clone()), S::N(d))
+            }
+            (S::C(a), S::C(mut d)) => {
+                d.clone_from(a);
+                (S::C(a.clone()), S::C(d))
+            }
+            (S::D(a), S::D(mut d)) => {
+                d.clone_from(a);
+                (S::D(a.clone()), S::D(d))
+            }
+            _ => continue,
+        };
+        rep.tally("clone_pairs_checked");
+        for k in 0..4 {
+            let len = rng.range(0, 80);
+            let hay = crate::meta::decoy_haystack(&mut rng, &pats, len, ci);
+            let sp = if k % 2 == 0 { (0, hay.len()) } else { gen::span(&mut rng, hay.len()) };
+            for anchored in [false, true] {
+                let a0 = answers(&src, kind, &hay, sp, anchored);
+                let a1 = answers(&cloned.0, kind, &hay, sp, anchored);
+                let a2 = answers(&cloned.1, kind, &hay, sp, anchored);
+                rep.evals(2);
+                let mk = |what: &str, got: &crate::walk::Answers| {
+                    (
+                        format!("clone:{}:{}", what, imp.name()),
+                        format!("a searcher made by {} answers differently from its source ({}; the destination had been built with {}): {:?} vs {:?}", what, cfg.label(), ocfg.label(), got, a0),
+                    )
+                };
+                let case = || J::obj().with("what", J::s("clone")).with("seed", J::u(seed)).with("index", J::i(i)).with("patterns", crate::report::pats_json(&pats)).with("cfg", cfg.to_json()).with("haystack", J::Str(crate::util::hex(&hay)));
+                if a1 != a0 {
+                    let (sg, d) = mk("clone()", &a1);
+                    rep.violation(&sg, d, case());
+                    return;
+                }
+                if a2 != a0 {
+                    let (sg, d) = mk("clone_from()", &a2);
+                    rep.violation(&sg, d, case());
+                    return;
+                }
+            }
+        }
+    }
+    // packed searchers
+    for i in 0..n / 4 {
+        let mut rng = root.fork(0x9000 + i as u64);
+        let pats = gen::packed_patterns(&mut rng);
+        let other = gen::packed_patterns(&mut rng);
+        let kind = [Kind::LeftmostFirst, Kind::LeftmostLongest][i % 2];
+        let okind = [Kind::LeftmostLongest, Kind::LeftmostFirst][i % 2];
+        let v = crate::packed::Variant::ALL[i % crate::packed::Variant::ALL.len()];
+        let (src, mut dst) = match (crate::packed::build(&pats, kind, v), crate::packed::build(&other, okind, crate::packed::Variant::ALL[(i + 1) % crate::packed::Variant::ALL.len()])) {
+            (Some(a), Some(b)) => (a, b),
+            _ => continue,
+        };
+        dst.clone_from(&src);
+        let c = src.clone();
+        rep.tally("packed_clone_pairs_checked");
+        for _ in 0..4 {
+            let len = rng.range(0, 120);
+            let hay = gen::vec_haystack(&mut rng, &pats, len);
+            let run = |s: &aho_corasick::packed::Searcher| -> Vec<(usize, usize, usize)> { s.find_iter(&hay).take(hay.len() + 2).map(|m| (m.pattern().as_usize(), m.start(), m.end())).collect() };
+            let (r0, r1, r2) = (run(&src), run(&c), run(&dst));
+            rep.evals(2);
+            if r1 != r0 || r2 != r0 {
+                rep.violation(
+                    &format!("clone:packed:{}", if r1 != r0 { "clone()" } else { "clone_from()" }),
+                    format!("a packed searcher made by clone/clone_from answers differently from its source: {:?} / {:?} vs {:?}", r1, r2, r0),
+                    J::obj().with("what", J::s("clone")).with("seed", J::u(seed)).with("patterns", crate::report::pats_json(&pats)).with("haystack", J::Str(crate::util::hex(&hay))),
+                );
+                return;
+            }
+        }
+    }
 }
 
 /// Replay: rebuild the world of the recorded seed and run the history check
@@ -853,6 +959,10 @@ pub fn replay(case: &J, rep: &mut Report) -> Result<(), String> {
         Some("tiny") => Tier::Tiny,
         _ => Tier::Quick,
     };
+    if case.get("what").and_then(|v| v.as_str()) == Some("clone") {
+        clone_checks(rep, seed, 7000);
+        return Ok(());
+    }
     let w = Arc::new(build_world(seed, tier)?);
     for k in 0..5 {
         history_check(rep, &w, 8, 2000, seed + k, true, &mut |_, _, _, _| {});
